@@ -108,6 +108,23 @@ func (q *c15Q) canon() string {
 
 type c15Break struct{ Clause, Subject, Detail string }
 
+// c15MinSumBrokenIgnoringLabels: the parents whose children's mins do not add up, allow-force-update labels ignored.
+func c15MinSumBrokenIgnoringLabels(ref map[string]*c15Q, gateOn bool) map[string]bool {
+	raw := map[string]*c15Q{}
+	for n, q := range ref {
+		c := *q
+		c.Force = false
+		raw[n] = &c
+	}
+	out := map[string]bool{}
+	for _, b := range c15WellFormed(raw, gateOn) {
+		if b.Clause == "children-min-sum" {
+			out[b.Subject] = true
+		}
+	}
+	return out
+}
+
 // c15WellFormed is the property's predicate on a set of quota objects; it returns every broken clause.
 // gateOn = ElasticQuotaEnableUpdateResourceKey (max keys of a child only need to be included in the parent's).
 func c15WellFormed(ref map[string]*c15Q, gateOn bool) []c15Break {
@@ -823,6 +840,27 @@ func (s *c15Sys) Apply(opi int, check bool) (bool, []mc.Violation) {
 	if accepted {
 		if op.Kind != "delete" {
 			breaks = c15WellFormed(s.ref, s.cfg.gateOn) // the pre-state was well-formed: everything broken is new
+			if s.cfg.force {
+				// ... up to the waiver: a sibling set whose mins already failed to add up before the request (admitted under
+				// the allow-force-update label, by design) is not broken BY this request, e.g. by taking the label off again
+				// (a false alarm of the first version of this part, thorough tier)
+				pre := c15Copy(s.ref)
+				if cur != nil {
+					pre[op.Name] = cur
+				} else {
+					delete(pre, op.Name)
+				}
+				inherited := c15MinSumBrokenIgnoringLabels(pre, s.cfg.gateOn)
+				kept := breaks[:0:0]
+				for _, b := range breaks {
+					if b.Clause == "children-min-sum" && inherited[b.Subject] {
+						s.res.Count("min_sum_break_inherited_from_a_forced_state(not judged)", 1)
+						continue
+					}
+					kept = append(kept, b)
+				}
+				breaks = kept
+			}
 		}
 		s.res.Count("accepted_"+op.Kind, 1)
 		if op.Kind == "update" && s.ref[op.Name].canon() == cur.canon() {
